@@ -598,6 +598,30 @@ mod pipeline {
         }
     }
 
+    /// the configuration as an application gets it — deserialized, with parts left out — has the documented defaults
+    /// (Secure and HttpOnly on, SameSite=Lax, Path=/), and a persistent cookie's Max-Age is the configured TTL however large
+    #[tokio::test]
+    async fn deserialized_configurations_and_large_ttls_reach_the_cookie() {
+        for text in [r#"{}"#, r#"{"cookie": {}}"#, r#"{"cookie": {"name": "sid"}}"#, r#"{"cookie": {"name": "sid", "domain": "example.com"}, "state": {}}"#, r#"{"state": {"ttl": 3600}}"#] {
+            let Ok(config) = serde_json::from_str::<SessionConfig>(text) else { continue }; // a shape serde rejects is not this test's business
+            assert!(config.cookie.secure && config.cookie.http_only, "{text}: the documented default of `secure` and `http_only` is true, got secure={} http_only={}", config.cookie.secure, config.cookie.http_only);
+            let store = SessionStore::new(InMemorySessionStore::new());
+            let mut s = Session::new(&store, &config, None);
+            s.insert("k", 1).await.unwrap();
+            let c = s.finalize().await.unwrap().expect("cookie");
+            assert_eq!((c.secure(), c.http_only()), (Some(true), Some(true)), "{text}: Secure / HttpOnly missing from the cookie");
+        }
+        for days in [1u64, 399, 400, 401, 1000, 36500] {
+            let store = SessionStore::new(InMemorySessionStore::new());
+            let mut config = SessionConfig::default();
+            config.state.ttl = std::time::Duration::from_secs(days * 86400 + 1);
+            let mut s = Session::new(&store, &config, None);
+            s.insert("k", 1).await.unwrap();
+            let c = s.finalize().await.unwrap().expect("cookie");
+            assert_eq!(c.max_age(), Some(pavex::time::SignedDuration::try_from(config.state.ttl).unwrap()), "ttl of {days} days and a second: max-age is not the configured TTL");
+        }
+    }
+
     #[tokio::test]
     async fn cookie_attributes_follow_the_configuration_and_debug_never_shows_the_id() {
         use pavex::cookie::SameSite;
